@@ -45,6 +45,11 @@ def _bool_return_cmp(cf):
 			if truth and len(vals) == 1:
 				keeps = (list(vals)[0] == 1)
 	if keeps is None:
+		# closure returns the negated comparison:  _0 = !(cmp)
+		for bi, si, s in cf.stmts():
+			if s[1] == [0] and s[2][0] == 'un' and s[2][1] == 'Not' and s[2][2][0] in ('c', 'm') and s[2][2][1] == [g.dest]:
+				keeps = False
+	if keeps is None:
 		# closure returns the comparison itself
 		for bi, si, s in cf.stmts():
 			if s[1] == [0] and s[2][0] == 'use' and s[2][1][0] in ('c', 'm') and s[2][1][1] == [g.dest]:
